@@ -166,6 +166,43 @@ pub fn run(ctx: &Ctx) -> Result<Evidence, String> {
             cases.push((i, r));
         }
     }
+    // size-boundary documents: generic routes and the boundary queries
+    let bdocs: Vec<Doc> = gen::boundary_docs().iter().map(Doc::new).collect();
+    let bqueries: Vec<Query> = gen::boundary_queries().iter().filter_map(|t| analyze(t).ast).collect();
+    let mut bcases: Vec<(usize, Route)> = vec![];
+    for (i, _) in bdocs.iter().enumerate() {
+        for q in &bqueries {
+            bcases.push((i, Route { kind: "size-boundary", query: q.clone(), spelling: Spelling::canonical() }));
+        }
+    }
+    let mut bdocs = bdocs;
+    let first_huge = bdocs.len();
+    bdocs.extend(gen::huge_docs().iter().map(Doc::new));
+    for q in gen::huge_queries() {
+        if let Some(ast) = analyze(q).ast {
+            for i in first_huge..bdocs.len() {
+                // several copies: the cases run concurrently on all worker threads
+                for _ in 0..3 {
+                    bcases.push((i, Route { kind: "huge", query: ast.clone(), spelling: Spelling::canonical() }));
+                }
+            }
+        }
+    }
+    // names needing escapes rendered concurrently: a few hot names (repeated) while other
+    // threads churn through hundreds of distinct ones
+    {
+        let hot = J::Obj((0..5).map(|i| (format!("hot'{}\\", i), J::Arr(vec![J::int(i), J::Obj(vec![(format!("in'{}", i), J::int(i))])]))).collect());
+        let hot_i = bdocs.len();
+        bdocs.push(Doc::new(&hot));
+        let churn_i = first_huge + 2;
+        for k in 0..ctx.tier.pick(600, 6000) {
+            let (di, q) = if k % 2 == 0 { (hot_i, ["$.*", "$..*", "$[?@]", "$.*[1].*"][k / 2 % 4]) } else { (churn_i, ["$.*", "$.*[1].*", "$[?@[0] > 100]"][k / 2 % 3]) };
+            if let Some(ast) = analyze(q).ast {
+                bcases.push((di, Route { kind: "escaped-names-concurrent", query: ast, spelling: Spelling::canonical() }));
+            }
+        }
+    }
+    let n_bound = bcases.len();
     // random part: random queries over random documents with hostile keys
     let mut dcfg = gen::DocCfg::default();
     dcfg.keys = gen::hostile_keys().into_iter().filter(|k| k.len() < 50).collect();
@@ -177,11 +214,17 @@ pub fn run(ctx: &Ctx) -> Result<Evidence, String> {
     let n_rand = ctx.tier.pick(150_000, 40_000_000);
     let seed = ctx.seed;
 
-    let acc = par_run(ctx, n_fixed + n_rand, |i, acc: &mut Acc| {
+    let acc = par_run(ctx, n_fixed + n_rand + n_bound, |i, acc: &mut Acc| {
         let (doc, text, kind): (&Doc, String, &'static str);
         if i < n_fixed {
             let (di, r) = &cases[i];
             doc = &docs[*di];
+            let mut s = r.spelling.clone();
+            text = render(&r.query, &mut s);
+            kind = r.kind;
+        } else if i >= n_fixed + n_rand {
+            let (di, r) = &bcases[i - n_fixed - n_rand];
+            doc = &bdocs[*di];
             let mut s = r.spelling.clone();
             text = render(&r.query, &mut s);
             kind = r.kind;
